@@ -1,8 +1,8 @@
 (** Property C01 — every live event is delivered exactly once, in time order
     with FIFO ties.  Statements over ALL scripts (programs), pre-run schedules,
     end_time choices and fuel; closed by [exact]; nothing else in this file. *)
-From HS Require Import Base.Prelude Base.PyLib Engine.Engine Engine.Script Engine.EngineProofs Engine.ScriptProofs Gen.EventGen C01.GenTie.
-From Coq Require Import Sorting.Sorted.
+From HS Require Import Base.Prelude Base.PyLib Engine.Engine Engine.Script Engine.EngineProofs Engine.ScriptProofs Gen.EventGen C01.GenTie C01.HeapTie.
+From Coq Require Import Sorting.Sorted Permutation.
 Local Open Scope Z_scope.
 
 Definition final fuel start end_ns p pre : sst := out_state (script_run fuel start end_ns p pre).
@@ -108,3 +108,52 @@ Theorem c01_code_event_order : forall (a b c : Event),
       (Event_time a < Event_time b \/ (Event_time a = Event_time b /\ Event__sort_index a < Event__sort_index b))%Z).
 Proof. intros a b c. exact (conj (fun P da db pa pb => tie_event_lt a b da db pa pb) (event_lt_strict_total a b c)). Qed.
 Print Assumptions c01_code_event_order.
+
+(* ------------------------------------------------------------------ *)
+(** The event heap of the CODE: EventHeap._push_single / pop / peek / has_events /
+    has_primary_events / size / set_current_time, regenerated from core/event_heap.py on every run
+    (Gen/EventGen.v; tracing and debug logging off), are the heap bookkeeping of the engine model —
+    [insert] into the list sorted by [ev_ltb], the [primary] counter and clock updates of [push_all]
+    and [pop_and_handle] — on the code object [hobj] of a model heap (any payload type). *)
+Theorem c01_code_event_heap_refines_model : forall (P : Type) prim cur (h : list (ev P)) mx e es t,
+  EventHeap__push_single (hobj P prim cur h mx) (encv P e)
+    = (hobj P (prim + (if ev_daemon e then 0 else 1)) cur (insert e h) (Z.max mx (ev_sort e)), tt)
+  /\ EventHeap_pop (hobj P prim cur h mx)
+    = match h with
+      | [] => None
+      | e :: r => Some (hobj P (if ev_daemon e then prim else prim - 1) (ev_time e) r mx, encv P e)
+      end
+  /\ (EventHeap_peek (hobj P prim cur h mx) = option_map (encv P) (hd_error h)
+      /\ EventHeap_has_events (hobj P prim cur h mx) = match h with [] => false | _ => true end
+      /\ EventHeap_has_primary_events (hobj P prim cur h mx) = (0 <? prim)
+      /\ EventHeap_size (hobj P prim cur h mx) = Z.of_nat (length h)
+      /\ EventHeap_set_current_time (hobj P prim cur h mx) t = (hobj P prim t h mx, tt))
+  /\ (exists mx', fold_left (fun q e => fst (EventHeap__push_single q (encv P e))) es (hobj P prim cur h mx)
+                  = hobj P (prim + count_primary es) cur (insert_all es h) mx').
+Proof.
+  intros P prim cur h mx e es t.
+  exact (conj (tie_push_single P prim cur h mx e) (conj (tie_pop P prim cur h mx)
+        (conj (tie_heap_reads P prim cur h mx t) (tie_push_all P es prim cur h mx)))).
+Qed.
+Print Assumptions c01_code_event_heap_refines_model.
+
+(** EventHeap AS TRANSLATED, started empty, for EVERY sequence of pushes and pops that never pops
+    an empty heap: the primary counter equals the number of non-daemon events held, so
+    [has_primary_events] — what auto-termination reads — is true exactly when a non-daemon event is
+    pending; the events pushed are exactly the events popped plus the events held (nothing lost or
+    duplicated by the heap); every pop returned an event that nothing then in the heap preceded in
+    (time, sort index) order and set the heap's time reference to its timestamp. *)
+Theorem c01_code_event_heap : forall ops t0 mx0 q popped,
+  heap_run (mkEventHeap 0 t0 [] mx0) ops = Some (q, popped) ->
+  EventHeap__primary_event_count q = nprimary (EventHeap__heap q)
+  /\ (EventHeap_has_primary_events q = true <-> exists e, In e (EventHeap__heap q) /\ Event_daemon e = false)
+  /\ Permutation (pushed_of ops) (popped ++ EventHeap__heap q)
+  /\ pops_minimal (mkEventHeap 0 t0 [] mx0) ops.
+Proof. exact code_event_heap. Qed.
+Print Assumptions c01_code_event_heap.
+
+Example c01_code_event_heap_example :
+  option_map snd (heap_run (mkEventHeap 0 0 [] (-1))
+    [HPush (mkEvent 5 0 false); HPush (mkEvent 3 1 true); HPush (mkEvent 5 2 false); HPush (mkEvent 3 3 false); HPop; HPop; HPop])
+  = Some [mkEvent 3 1 true; mkEvent 3 3 false; mkEvent 5 0 false].
+Proof. vm_compute. reflexivity. Qed.
